@@ -463,6 +463,8 @@ class SymStr:
                 if is_concrete(p0):
                     return [(OK, hirai.mkint(len(concrete(p0).encode("utf-8"))), st)]
                 return [(OK, unk("strlen"), st)]
+            if c in ("alloc::string::String::clear",) and args[0][0] == "ref":
+                return [(OK, hirai.UNIT, I.write(st, args[0][1], lit("")))]
             if c == "alloc::str::<impl str>::repeat":
                 cnt = I.deref_val(st, args[1])
                 if is_concrete(p0) and cnt[0] == "int" and isinstance(cnt[1], int):
